@@ -1,6 +1,15 @@
 package main
 
-import "strings"
+import (
+	"bytes"
+	"context"
+	"encoding/json"
+	"fmt"
+	"math/rand"
+	"strings"
+
+	"github.com/ddddddO/gtree"
+)
 
 // C01: text output obeys the tree-drawing rule.
 // Correspondence: real OutputFromMarkdown (iterator path and batch path) vs the Lean model's
@@ -142,7 +151,99 @@ func runC01(ctx *Ctx) *Report {
 	runCases(rep, cases, ctx.Workers, func(c Case) bool {
 		return c.Tree == "" || c.Note != "" || nonTrivialEnc(c.Tree)
 	})
+	// several roots whose drawings are larger than any buffer on the way (4 KiB, 8 KiB, 32 KiB, 64 KiB), with the massive
+	// option: the order of the roots is free, but every root's lines stay together, in pre-order, as the simple mode
+	// draws them
+	var mb []mblockCase
+	nb := 6
+	if ctx.Thorough {
+		nb = 40
+	}
+	for k := 0; k < nb; k++ {
+		mb = append(mb, mblockCase{Kind: "c01-massive-blocks", Roots: 2 + k%4, Lines: []int{90, 200, 700, 1500}[k%4] + ctx.Rng.Intn(40), Seed: int64(ctx.Rng.Int31()), FromRoot: k%5 == 4, Custom: k%2 == 1})
+	}
+	for _, c := range mb {
+		rep.Record(c, fmt.Sprintf("mblocks:%d:%d:%v:%v", c.Roots, c.Lines, c.FromRoot, c.Custom), true, runMassiveBlocks(c))
+		rep.Count("massive text output of " + itoa(c.Roots) + " large roots" + ifs(c.FromRoot, " (one From-Root call per root is not possible: From-Markdown)", ""))
+	}
 	return rep
+}
+
+type mblockCase struct {
+	Kind     string `json:"kind"`
+	Roots    int    `json:"roots"`
+	Lines    int    `json:"lines_per_root"`
+	Seed     int64  `json:"seed"`
+	FromRoot bool   `json:"from_root,omitempty"`
+	Custom   bool   `json:"custom_branch_strings,omitempty"`
+}
+
+func init() {
+	replayers["c01-massive-blocks"] = func(m *Model, raw json.RawMessage) []Diff {
+		var c mblockCase
+		json.Unmarshal(raw, &c)
+		return runMassiveBlocks(c)
+	}
+}
+
+// runMassiveBlocks: the massive text output of a forest of large roots is a concatenation, in some order, of the
+// blocks the simple mode draws for the roots one by one.
+func runMassiveBlocks(c mblockCase) []Diff {
+	rng := rand.New(rand.NewSource(c.Seed))
+	var forest []*Tree
+	for r := 0; r < c.Roots; r++ {
+		root := &Tree{Name: fmt.Sprintf("root-%d-%d", r, rng.Intn(1000))}
+		open := []*Tree{root}
+		for i := 1; i < c.Lines; i++ {
+			par := open[rng.Intn(len(open))]
+			n := &Tree{Name: fmt.Sprintf("n%d-%s", i, strings.Repeat("x", 10+rng.Intn(40)))}
+			par.Kids = append(par.Kids, n)
+			if len(open) < 12 {
+				open = append(open, n)
+			} else {
+				open[rng.Intn(len(open))] = n
+			}
+		}
+		forest = append(forest, root)
+	}
+	var fo []gtree.Option
+	if c.Custom {
+		fo = fmtOpts(fmtCustom)
+	}
+	var blocks []string
+	for _, t := range forest {
+		var b bytes.Buffer
+		if err := gtree.OutputFromMarkdown(&b, bytes.NewReader(spell([]*Tree{t}, plainSpelling)), fo...); err != nil {
+			return []Diff{{What: "simple text output of one large root failed", Real: classify(err), Model: "nil"}}
+		}
+		blocks = append(blocks, b.String())
+	}
+	var out lockedBuf
+	err := gtree.OutputFromMarkdown(&out, bytes.NewReader(spell(forest, plainSpelling)), append(append([]gtree.Option{}, fo...), gtree.WithMassive(context.Background()))...)
+	if err != nil {
+		return []Diff{{What: "massive text output of large roots failed", Real: classify(err), Model: "nil"}}
+	}
+	rest := string(out.finish())
+	used := make([]bool, len(blocks))
+	for len(rest) > 0 {
+		found := false
+		for i, b := range blocks {
+			if !used[i] && strings.HasPrefix(rest, b) {
+				used[i], found, rest = true, true, rest[len(b):]
+				break
+			}
+		}
+		if !found {
+			at := len(string(out.finish())) - len(rest)
+			return []Diff{{What: "massive text output of several large roots is not a sequence of the roots' blocks (a root's lines are torn or interleaved)", Real: fmt.Sprintf("no root's block starts at byte %d: %q…", at, rest[:min(len(rest), 120)]), Model: "every root's lines together, in pre-order"}}
+		}
+	}
+	for i := range used {
+		if !used[i] {
+			return []Diff{{What: "massive text output of several large roots lacks a root", Real: fmt.Sprintf("root %d missing", i), Model: "one block per root"}}
+		}
+	}
+	return nil
 }
 
 func itoa(n int) string {
